@@ -448,7 +448,7 @@ func c06SameContainer(info *types.Info, scope ast.Node, a, b ast.Expr) bool {
 }
 
 // c06WholeStream decides whether reader expression rd yields the whole decompressed stream of the blob's zlib data.
-func c06WholeStream(info *types.Info, f *c01Fn, rd ast.Expr, isRaw func(ast.Expr) bool, depth int) (string, string) {
+func c06WholeStream(info *types.Info, f *c01Fn, rd ast.Expr, isRaw func(ast.Expr) bool, depth int, outer func(ast.Expr) (*c01Fn, ast.Expr)) (string, string) {
 	fs := f.p.Fset
 	if depth > 5 {
 		return "reader expression too deep", "unknown"
@@ -461,7 +461,7 @@ func c06WholeStream(info *types.Info, f *c01Fn, rd ast.Expr, isRaw func(ast.Expr
 		if len(ds) != 1 || ds[0].rhs == nil || ds[0].index > 0 {
 			return fmt.Sprintf("reader `%s` is not a local defined once from an expression", id.Name), "unknown"
 		}
-		return c06WholeStream(info, f, ds[0].rhs, isRaw, depth+1)
+		return c06WholeStream(info, f, ds[0].rhs, isRaw, depth+1, outer)
 	}
 	mentionsZlib := func(n ast.Node) bool {
 		found := false
@@ -476,6 +476,24 @@ func c06WholeStream(info *types.Info, f *c01Fn, rd ast.Expr, isRaw func(ast.Expr
 					found = true
 				}
 			case *ast.Ident:
+				// a parameter that stands for the zlib bytes handed in by the caller
+				if outer != nil {
+					if _, e2 := outer(y); e2 != ast.Expr(y) {
+						ast.Inspect(e2, func(z ast.Node) bool {
+							if c, ok := z.(*ast.CallExpr); ok {
+								if fn := callee(info, c); fn != nil && fn.Name() == "GetZlibData" && c01IsGenerated(c01RecvTypeOf(fn), "Blob") {
+									found = true
+								}
+							}
+							if sl, ok := z.(*ast.SelectorExpr); ok {
+								if fl := fieldOf(info, sl); fl != nil && fl.Name() == "ZlibData" && c01IsGenerated(selRecv(info, sl), "Blob") {
+									found = true
+								}
+							}
+							return !found
+						})
+					}
+				}
 				if o := objOf(info, y); o != nil {
 					if rhs := c01SingleDef(info, f.body, o); rhs != nil && rhs != n {
 						ast.Inspect(rhs, func(z ast.Node) bool {
@@ -520,9 +538,9 @@ func c06WholeStream(info *types.Info, f *c01Fn, rd ast.Expr, isRaw func(ast.Expr
 			if !aboveRaw(x.Args[1]) {
 				return fmt.Sprintf("the decompressor is read through `%s`, whose limit `%s` is not provably above raw_size", src(fs, x), src(fs, x.Args[1])), "bad"
 			}
-			return c06WholeStream(info, f, x.Args[0], isRaw, depth+1)
+			return c06WholeStream(info, f, x.Args[0], isRaw, depth+1, outer)
 		case (isPkgFunc(fn, "bufio", "NewReader") || isPkgFunc(fn, "bufio", "NewReaderSize") || isPkgFunc(fn, "io", "NopCloser")) && len(x.Args) >= 1:
-			return c06WholeStream(info, f, x.Args[0], isRaw, depth+1)
+			return c06WholeStream(info, f, x.Args[0], isRaw, depth+1, outer)
 		case fn != nil && mentionsZlib(x):
 			return "the decompressor `" + src(fs, x) + "` itself", "ok"
 		}
@@ -543,7 +561,7 @@ func c06WholeStream(info *types.Info, f *c01Fn, rd ast.Expr, isRaw func(ast.Expr
 			if inner == nil || lim == nil || !aboveRaw(lim) {
 				return fmt.Sprintf("the decompressor is read through `%s`, whose limit is not provably above raw_size", src(fs, x)), "bad"
 			}
-			return c06WholeStream(info, f, inner, isRaw, depth+1)
+			return c06WholeStream(info, f, inner, isRaw, depth+1, outer)
 		}
 	}
 	return fmt.Sprintf("reader `%s` is not recognised as the decompressor of the blob's zlib data", src(fs, e)), "unknown"
